@@ -831,6 +831,35 @@ pub fn run(ctx: &mut Ctx) -> (&'static str, String, bool) {
             ctx.merge(p);
         }
     }
+    // ---- 12. characters whose second wire byte is 0x5E (a caret to anything that looks at bytes, not characters) next
+    //          to the letters and digits that would complete a control code, colour codes, escaped carets and characters
+    //          of the codepages such a misread code would name: all strings of up to four tokens ------------------------
+    {
+        const TOK: [&str; 15] = ["タ", "乛", "乞", "S", "J", "H", "L", "8", "^8", "^^", "们", "あ", "한", "們", "é"];
+        let maxtok = 4u32;
+        for len in 1..=maxtok {
+            let n = (TOK.len() as u64).pow(len);
+            let parts: Vec<Part> = (0..n.div_ceil(4096))
+                .into_par_iter()
+                .map(|c| {
+                    let mut p = Part::new();
+                    for i in c * 4096..((c + 1) * 4096).min(n) {
+                        let mut idx = i;
+                        let mut s = String::new();
+                        for _ in 0..len {
+                            s.push_str(TOK[(idx % TOK.len() as u64) as usize]);
+                            idx /= TOK.len() as u64;
+                        }
+                        check_encode(tb, &s, "trail-byte-5e-neighbourhood", &mut p);
+                    }
+                    p
+                })
+                .collect();
+            for p in parts {
+                ctx.merge(p);
+            }
+        }
+    }
     // ---- 8. homogeneous runs: n copies of one character (alone, after a short ASCII prefix, before an ASCII tail). The
     //         ratio of UTF-8 length to wire length is extreme for half-width katakana and the 0x80-0x9F punctuation ------
     {
